@@ -273,6 +273,12 @@ def quick_programs():
     out.append(("rorder_se", [RM(fn="on_s", handlers=("x",), on="success", data="raw,opt"), RM(fn="on_e", handlers=("x",), on="error")], {"order"}))
     out.append(("rorder_es", [RM(fn="on_e", handlers=("x",), on="error"), RM(fn="on_s", handlers=("x",), on="success", data="raw,opt")], {"order"}))
     out.append(("rorder_es_nodata", [RM(fn="on_e", handlers=("x",), on="error"), RM(fn="on_s", handlers=("x",), on="success")], {"order"}))
+    # a success/error pair where only one of the two methods marks the Binary payload `#[sv::payload(raw)]` (the payload then travels raw
+    # for both), in both declaration orders and with the data parameter on either side of the marking
+    out.append(("rrawmix", [RM(fn="m1_s", handlers=("mix1",), on="success", data="raw,opt", raw_marked=False), RM(fn="m1_e", handlers=("mix1",), on="error"),
+                            RM(fn="m2_e", handlers=("mix2",), on="error", raw_marked=False), RM(fn="m2_s", handlers=("mix2",), on="success", data="raw,opt"),
+                            RM(fn="m3_s", handlers=("mix3",), on="success"), RM(fn="m3_e", handlers=("mix3",), on="error", raw_marked=False),
+                            RM(fn="m4_e", handlers=("mix4",), on="error"), RM(fn="m4_s", handlers=("mix4",), on="success", data="raw,opt", raw_marked=False)], {"payload", "order"}))
     return out
 
 
